@@ -13,7 +13,8 @@ check("C01",
       "relations) on lattice topologies of 2-4 (thorough: 5) unit blocks with a symbolic chop flag and a symbolic count in "
       "[1,6] per block direction and solver-chosen iteration order of every neighbour/coincident set; z3 must refute "
       "'success and two wires on one geometric edge differ', 'a wire differs from the written count' and 'success and two "
-      "chops of one family differ'. Independent oracle: union-find over vertex indices.",
+      "chops of one family differ'; selected models are graded twice (the second grading must write the same counts). "
+      "Independent oracle: union-find over vertex indices.",
       "count-only chops; lattice topologies listed in evidence.bounds; loop cap as unwinding assertion; the partial-order "
       "reduction of set iteration orders is enabled only when the AST of the two consuming loops in the current source "
       "justifies it",
@@ -22,7 +23,9 @@ check("C01",
 check("C02",
       "Same symbolic run as C01 judged for termination (unwinding bound on the copy step), completeness (families with "
       "agreeing chops end in success with the chop's count, families without chop end in UndefinedGradingsError), absence "
-      "of spurious errors, and determinism across schedules (pairwise solver query over explored paths with equal flags).",
+      "of spurious errors, and determinism across schedules (pairwise solver query over explored paths with equal flags). "
+      "Every run grades through the real Mesh.write() into a scratch file that already holds a dictionary: a failing write "
+      "must leave it untouched (no partial dictionary), a successful one must leave a complete file.",
       "as C01; determinism is checked between explored schedules of one insertion order, order-independence by running "
       "several insertion orders/corner numberings against the same order-free oracle",
       "symbolic execution of the real Python code with z3 (symx); set-iteration schedules as solver variables; cross-path "
@@ -30,7 +33,9 @@ check("C02",
       "DESIGN.md 4/C02")
 check("C09",
       "Bounded symbolic execution of the real translate/rotate/scale/mirror/transform/copy of Point, Array, Arc, Origin, "
-      "Angle, Spline, PolyLine, DiscreteCurve, LineCurve, Face, Loft (arc/origin/angle/spline edges), Extrude, Revolve; "
+      "Angle, Spline, PolyLine, DiscreteCurve, LineCurve, LinearInterpolatedCurve, Face, Loft (arc/origin/angle/spline "
+      "edges), Extrude, Revolve, by method call and by transformation list, and of composite entities (Cylinder, "
+      "ExtrudedRing, RevolvedRing, Hemisphere, stacks, joints, Assembly) with given and default origins; "
       "operations go through the real Mesh.assemble and Edge.third_point/length. Symbolic entity points, displacement, "
       "origin, ratio and (for point-like entities) mirror normal; pinned rational rotations. z3 must show transformed "
       "geometry == harness-written affine map of the original geometry, directions not displaced, lengths scaled, "
@@ -84,7 +89,8 @@ check("C05",
       "Operation.get_patches_at_corner, PatchList.slave_patches on 2-4 unit boxes with symbolic per-corner jitter below the "
       "merge tolerance, solver-chosen insertion order and merge-call order, and scenario tables of patches and merged "
       "pairs; every tolerance comparison is decided by z3; the resulting vertex indices are compared with a harness-side "
-      "partition by (lattice point, slave patches touching the corner).",
+      "partition by (lattice point, slave patches touching the corner). Thin-layer variants put a symbolic layer thickness "
+      "h in [2.5 TOL, 2] between lattice planes: distinct points, however close, are distinct vertices.",
       "layouts and scenarios as listed in evidence.bounds; jitter <= TOL/8 so that tolerance chains are transitive; the "
       "side a corner touches is derived geometrically",
       "symbolic execution of the real Python code with z3 (symx), insertion order as solver variable, concrete replay",
@@ -106,9 +112,11 @@ check("C06",
       "for template scripts of three boxes with symbolic origin/extents and solver-chosen selectors (patch sides, projected "
       "side with edges/points, deleted operation, patch-modification sequence) plus zones, default patch, merged pair, "
       "settings and geometry; the file is read back by an independent parser and every section is related to the "
-      "declarations with geometric side oracles (number tokens give symbolic equality of coordinates).",
+      "declarations with geometric side oracles (number tokens give symbolic equality of coordinates). Further templates: "
+      "corners shared by two operations projected to different geometries in every insertion order; sphere shapes "
+      "(plain, translated by a symbolic vector, copied, two in one mesh) with their automatic searchableSphere geometry.",
       "number->text formatting is replaced by tokens in symbolic mode (the concrete replay parses the real 8-decimal text); "
-      "templates of three boxes; sphere auto-geometry outside",
+      "templates of three boxes / one or two hemispheres",
       "symbolic execution of the real Python code with z3 (symx), read-back parser, concrete replay",
       "DESIGN.md 4/C06")
 check("C12",
@@ -117,7 +125,7 @@ check("C12",
       "vertex index, 3 symbolic displacement reals) is chosen by the solver; at every write the file is compared - "
       "structure syntactically, coordinates and counts by z3 - with the file a freshly built equivalent model writes "
       "(reference interpreter in the harness); after backport every operation must hold the positions of its own vertices.",
-      "history length <= 3 (+ final write) on 2 boxes in quick, <= 4 on 2-3 boxes in thorough; delete takes effect at the next "
+      "history length <= 3 (+ final write; the first two actions enumerated as jobs, the rest solver-chosen) on 2 boxes in quick, <= 4 on 2-3 boxes in thorough; delete takes effect at the next "
       "(re)assembly; modify_patch of a patch without faces and deleting every operation are outside; trusted: a fresh model "
       "writes what it should (C06)",
       "symbolic execution of the real Python code with z3 (symx), histories as solver variables, differential oracle, replay",
@@ -128,8 +136,9 @@ check("C03",
       "polynomials, brentq replaced by its contract), size&c2c and c2c&total pairs use a symbolic integer count with log "
       "and power as uninterpreted functions under ground instances of their laws added at creation time. z3 shows: count "
       "and ratio reproduced exactly, sizes reproduced (relative 1e-6) resp. never coarser / coarser with one cell fewer, "
-      "count >= 1, expansion > 0, reversal gives same count and reciprocal expansion, realisable parameters accepted and "
-      "unrealisable ones rejected.",
+      "count >= 1, expansion > 0, reversal gives same count and reciprocal expansion (directly for count-based pairs and "
+      "c2c&total; for every pair: invert() swaps start/end size, makes both expansions reciprocal, keeps the count), "
+      "realisable parameters accepted and unrealisable ones rejected.",
       "given counts <= 6 (quick) / 12 (thorough); 2e-8 wide slivers around c2c = 1 +- TOL left out; brentq and log/pow are "
       "contracts, not the numerical routines; pairs that solve for a real-valued count (start&end, start&total, "
       "end&total) and end_size&c2c<1 only in the thorough tier",
@@ -151,7 +160,7 @@ check("C15",
       "Bounded symbolic execution of SketchSmoother/MeshSmoother (fix_indexes, fix_points, smooth, backport), "
       "QuadGrid.from_sketch/HexGrid.from_mesh, GridBase binding, Junction.is_boundary/add_neighbour, CellBase.boundary/"
       "add_neighbour and MappedSketch.positions with all point positions free symbolic reals and the fixed set chosen by "
-      "the solver, on structured, L-shaped and disk quad maps and two hexahedral assemblies. The harness derives boundary "
+      "the solver (given by index, by position, or in several calls with a solver-chosen split and order), on structured, L-shaped and disk quad maps and two hexahedral assemblies. The harness derives boundary "
       "and edge-neighbours from connectivity alone and recomputes the sweep; z3 shows unmoved boundary/fixed points, "
       "averages, fix-point, unique regular lattice, consistent copy-back.",
       "maps up to 9 (thorough 12) faces, iterations <= 2 (3); sweep order = junction index order; convergence rate outside",
@@ -162,7 +171,8 @@ check("C19",
       "Mesh.delete + assemble with symbolic grid corner points and height and solver-chosen indices/slice/deleted cell; "
       "Cylinder, SemiCylinder, Frustum, ExtrudedRing and the disk sketches under a symbolic scale and translation for the "
       "core/shell partition (squared-distance test against the outer radius). z3 shows grid[k][j][i] sits at column i, "
-      "row j, tier k; slices return exactly the cells with that index, once; deletion removes exactly the addressed hex.",
+      "row j, tier k; slices return exactly the cells with that index, once; deletion removes exactly the addressed hex; "
+      "for ExtrudedShape over all 12 sketch classes shape.grid[i][j] stands on sketch.grid[i][j] (bottom and top face).",
       "grid sizes enumerated up to 3x3x2 (thorough 4x4x3); round shapes axis-aligned (rotated placements are lifted in C11); "
       "np.linspace on symbolic scalars modelled as the affine formula",
       "symbolic execution of the real Python code with z3 (symx), fork-on-value for indices, concrete replay",
@@ -173,8 +183,9 @@ check("C13",
       "IterationDriver, Mesh/SketchOptimizer.backport on small quad sketches and box meshes with symbolic positions under "
       "a demonic minimiser (arbitrary in-bounds probes, state left at the last probe), an arbitrary-gradient "
       "approx_fprime (clamp order = solver-chosen permutation) and an uninterpreted cell quality that may report a "
-      "degenerate cell on a probe. z3 shows the quality, unmoved-vertices, clamp-position/bounds, link-relation, copy-back "
-      "and rollback obligations.",
+      "degenerate cell on a probe. z3 shows the quality, unmoved-vertices, clamp-position/bounds, link-relation "
+      "(translation, mirror and rotation links; for the rotation link the minimiser turns a radial clamp by solver-chosen "
+      "pinned angles on concrete geometry), copy-back and rollback obligations.",
       "the minimisers are contracts (bounds honoured), not the numerical algorithms; quality uninterpreted (C14 covers what "
       "it computes); 1 probe per minimisation in quick; clamp creation through the exact-root contract",
       "symbolic execution of the real Python code with z3 (symx), demonic environment stubs, scripted replay",
@@ -183,11 +194,13 @@ check("C16",
       "Bounded symbolic execution of DiscreteCurve.discretize/get_length/get_point/get_closest_param, "
       "LinearInterpolatedCurve (InterpolatorBase.params, get_point, discretize, get_length), LineCurve "
       "(discretize/get_point/AnalyticCurve.get_length) and OnCurveEdge on a discrete curve (param_start/param_end/"
-      "point_array/length) with symbolic point offsets resp. symbolic parameters and query points. z3 shows the "
+      "point_array/length) with symbolic point offsets resp. symbolic parameters and query points, and of "
+      "FunctionCurveBase.get_closest_param on an S-shaped polynomial AnalyticCurve with bounds that do not start at 0 "
+      "(coarse guess over the discretisation + minimiser under its descent contract, 68 near-curve queries). z3 shows the "
       "end-point, through-points, additivity, polyline-length, closest-point and snapped-edge obligations.",
       "interp1d(linear) is a piecewise-linear model (validated against scipy each run); interpolated curves use concrete "
-      "uneven points with symbolic parameters; spline-interpolated/analytic curves and minimiser-based closest-parameter "
-      "search are outside",
+      "uneven points with symbolic parameters; scipy.optimize.minimize is its descent contract f(result) <= f(x0) within the "
+      "bounds (replay: the real minimiser); spline-interpolated curves and lengths of general analytic curves are outside",
       "symbolic execution of the real Python code with z3 (symx), concrete replay",
       "DESIGN.md 4/C16")
 check("C18",
@@ -195,7 +208,8 @@ check("C18",
       "functions.is_point_on_plane/point_to_plane_distance) with a symbolic query sphere/plane on box meshes, of "
       "RoundSolidFinder.find_core/find_shell on a Cylinder under a symbolic similarity, and of ViewpointReorienter.reorient "
       "(Triangle, Quadrangle, _get_normals, _get_aligned) on a convex hexahedron with symbolic placement and viewpoint "
-      "distances in two initial numberings, qhull replaced by per-face diagonal choices. z3 shows exact vertex sets "
+      "distances in two initial numberings (and of one reorienter applied to three blocks in turn), qhull replaced by "
+      "per-face diagonal choices. z3 shows exact vertex sets "
       "(squared-distance predicates) and the five re-orientation obligations incl. independence from the numbering.",
       "sphere centres / plane points on pinned lines, pinned plane-normal and viewpoint directions (thorough: small symbolic "
       "direction offsets); vertices within the stated margins of a query boundary excluded; convex hexahedron fixed",
@@ -203,14 +217,14 @@ check("C18",
       "DESIGN.md 4/C18")
 check("C11",
       "Bounded symbolic execution of the constructors of Loft/Extrude/Revolve, Cylinder, SemiCylinder, Frustum, ExtrudedRing, "
-      "Elbow, RevolvedRing, Hemisphere, ExtrudedStack over Grid, ExtrudedShape over OneCore/FourCore/Half/Wrapped disks "
-      "and Oval, L/T/N joints, and of chain/expand/contract/fill, with every argument of the form k*Q*x0 + t (symbolic "
+      "Elbow, RevolvedRing, Hemisphere, Wedge, Shell, Extruded/RevolvedStack over Grid, ExtrudedShape over OneCore/FourCore/"
+      "Half/Wrapped disks, Oval and the spline-round sketches, L/T/N joints, and of chain/expand/contract/fill, with every argument of the form k*Q*x0 + t (symbolic "
       "scale and translation, pinned rational rotation), through the real Mesh.assemble: z3 shows positive corner "
       "Jacobians, no coinciding distinct vertices, expected vertex counts, face-connectedness, outer arcs on the intended "
-      "circle, exact interface sharing, for all k and t. Grading of each shape's own count-only chops runs with "
+      "circle, arcs of revolution on their circle about the axis, exact interface sharing, for all k and t (plus two "
+      "ground placements per shape). Grading of each shape's own count-only chops runs with "
       "solver-chosen set-iteration schedules at a concrete placement.",
       "one canonical set of intrinsic parameters per shape class; rotation from {identity, pinned}; schedules of the grading "
-      "run are explored up to a path bound (40 quick / 3000 thorough) and reported as truncated beyond; spline-round "
-      "sketches only in the thorough tier",
+      "run are explored up to a path bound (40 quick / 3000 thorough) and reported as truncated beyond",
       "symbolic execution of the real Python code with z3 (symx), similarity-lifted geometry, schedules as solver variables",
       "DESIGN.md 4/C11")
